@@ -11,6 +11,10 @@ produce results") are judged by CONTENT on every real run (`content_leaks`), on 
 (`bypass_battery`, `_inject_bypass`); the 7z private directory is snapshotted when it is removed and compared
 with the model's `tempFiles`; a failing archive is confirmed in a fresh interpreter, with the earlier archives of
 the process as replayed `history` if it only fails after them (`confirm_fresh`).
+Entry ATTRIBUTES (7z attribute words incl. the p7zip unix extension and Windows reparse points, ZIP external_attr /
+create_system, TAR typeflag and raw mode field) are varied independently of names, kinds and data in all three writers
+(`attr_battery`, `_vary_attrs`), on members whose data is a host path, with members named below them and with link chains;
+every open / mkdir is judged at the place the kernel takes it to (`_Obs._real`, `_phys`, `_py_confined`).
 """
 from __future__ import annotations
 
@@ -35,7 +39,7 @@ from run import Broken, Violation
 sys.path.insert(0, os.path.join(os.path.dirname(os.path.abspath(__file__)), ".."))
 from builders import sevenzip_c09 as szb  # noqa: E402
 
-GEN = ["Router", "Archive", "PyRouter", "PySevenZip", "PyArchive"]
+GEN = ["Router", "Archive", "ArchiveAttrs", "PyRouter", "PySevenZip", "PyArchive"]
 RULE = ("archives = format (zip | tar, tar.gz, tar.bz2, tar.xz | 7z solid / no-folders / per-file) x 1..7 members drawn from a "
         "hostile name grammar (absolute, ../ chains, backslashes, drive letters, empty, long, unicode, hidden, __MACOSX, "
         "names of existing canary files, duplicate and file/dir-conflicting names) x member kind (regular, dir, symlink, "
@@ -50,7 +54,14 @@ RULE = ("archives = format (zip | tar, tar.gz, tar.bz2, tar.xz | 7z solid / no-f
         "same name twice around the size limit, same basename outside __MACOSX, 7z second spelling of the same path, 7z "
         "empty-file / stream-less entry of the same name, ZIP symlink member) x order x 7z layout; link targets of random TAR "
         "links are drawn from the archive's own members; every real run is judged by content (no filtered payload in any "
-        "result) and, for 7z, the private directory is snapshotted when it is removed and compared with the model's tempFiles")
+        "result) and, for 7z, the private directory is snapshotted when it is removed and compared with the model's tempFiles; "
+        "plus the ATTRIBUTE family on every run (fixed battery: every container x every attribute word of its pool x {member of "
+        "supported type whose data is the path of a host file; such a member holding the path of a host directory followed by a "
+        "member named below it; ordinary member; stream-less / directory / empty entries}; and 40% of the random archives): 7z "
+        "attribute words (Windows bits incl. directory / device / reparse point, p7zip unix extension 0x8000 | st_mode << 16 with "
+        "symlink / fifo / chr / blk / socket / dir / setuid modes, partially defined vectors), ZIP external_attr + create_system, "
+        "TAR typeflags (incl. contiguous, old-style regular) and mode field — drawn independently of names, kinds and data; every "
+        "open / mkdir is judged at the place the kernel takes it to (realpath at the moment of the call), not only lexically")
 ASSUMPTIONS = [
     "CPython: str.lower, mimetypes.guess_type are parameters of the model (any function in the theorems)",
     "zipfile/tarfile: member list, is_dir/isreg/flag_bits/file_size and the bytes read are parameters of the model; "
@@ -67,6 +78,8 @@ ASSUMPTIONS = [
     "the content oracle classifies a member by the name zipfile / tarfile REPORT for it (tarfile strips the trailing slash of a "
     "pax path, zipfile cuts at NUL) and by its own payload length; only payloads (printable ASCII, >= 12 characters) that occur in no "
     "member that may produce results are judged",
+    "7z attribute words: the model is handed the whole word and keeps FILE_ATTRIBUTE_DIRECTORY only (AttrEntry.toRaw); that the "
+    "source reads nothing else of it is a syntactic inventory (Gen/ArchiveAttrs.lean) re-decided by the kernel on every run",
     "tarfile.extractfile follows hard and symbolic links to another member's bytes: what it returns for a non-regular member is a "
     "parameter of the model (theorem C09_tar_links_irrelevant: it cannot matter under the source's member-kind guard)",
 ]
@@ -112,6 +125,19 @@ class _Obs:
             return None   # not a path at all (the call itself raises TypeError)
 
     @classmethod
+    def _real(cls, p):
+        """where the kernel will take this path at the moment of the call (links inside the private directory are
+        followed by open / mkdir whatever the lexical form of the path says); None if it cannot be resolved"""
+        was = cls.active
+        cls.active = False
+        try:
+            return os.path.realpath(os.path.abspath(p))
+        except Exception:
+            return None
+        finally:
+            cls.active = was
+
+    @classmethod
     def hook(cls, event, args):
         if not cls.active or cls.in_rmtree:
             return
@@ -124,7 +150,7 @@ class _Obs:
                 flags = args[2] if len(args) > 2 and isinstance(args[2], int) else 0
                 mode = args[1] if len(args) > 1 else None
                 w = bool(flags & cls.W_FLAGS) or (isinstance(mode, str) and any(c in mode for c in "wax+"))
-                ev = ["openW" if w else "openR", p]
+                ev = ["openW" if w else "openR", p, cls._real(p)]
             elif event == "os.mkdir":
                 p = cls._p(args[0])
                 cls.active = False
@@ -134,7 +160,7 @@ class _Obs:
                     ex = os.path.lexists(p) or not os.path.isdir(os.path.dirname(os.path.abspath(p)))
                 finally:
                     cls.active = True
-                ev = ["mkdirExisting" if ex else "mkdir", p]
+                ev = ["mkdirExisting" if ex else "mkdir", p, cls._real(p)]
             elif event == "tempfile.mkdtemp":
                 ev = ["mkdtemp", cls._p(args[0])]
             elif event == "os.remove":
@@ -193,6 +219,10 @@ class _Obs:
             n = 0
             for dp, dns, fns in os.walk(path):
                 dns.sort()
+                for dn in dns:
+                    q = os.path.join(dp, dn)
+                    if not statmod.S_ISDIR(cls.orig_lstat(q).st_mode):
+                        cls.tmpsnap.append([q, -1, "<not a regular file>"])    # a link to a directory
                 for fn in sorted(fns):
                     q = os.path.join(dp, fn)
                     st = cls.orig_lstat(q)
@@ -303,8 +333,59 @@ def _subst(name: str, sb: Sandbox) -> str:
 # spec = {"fmt": "zip"|"tar"|"tar.gz"|"tar.bz2"|"tar.xz"|"7z", "layout": …, "corrupt": None|…,
 #         "members": [{"name": str, "kind": str, "data": str (latin-1), "link": str}], "consumer": ["exhaust"]|["close",k]|["raise",k],
 #         "max_memory": int|None}
-def _b(m) -> bytes:
-    return m.get("data", "").encode("latin-1")
+def _b(m, sb=None) -> bytes:
+    """the member's data; `"subst": True` = the data is a PATH in which {SB} stands for the sandbox root (a link target
+    stored as the entry's content: 7z / ZIP keep the target of a symbolic link there)"""
+    d = m.get("data", "")
+    if m.get("subst"):
+        return (_subst(d, sb) if sb is not None else d).encode("utf-8", "surrogateescape")
+    return d.encode("latin-1")
+
+
+# ---------------------------------------------------------------------------- entry ATTRIBUTES
+# varied independently of the entry's name, kind and data, in every container the harness writes:
+#   7z  : the 32-bit attribute word of PROP_WIN_ATTRIBUTES — Windows bits (read-only, hidden, system, directory, archive,
+#         device, temporary, reparse point, offline …) and the p7zip unix extension (0x8000 | st_mode << 16: symbolic link,
+#         fifo, character / block device, socket, directory, setuid / setgid / sticky), also partially defined vectors
+#   ZIP : ZipInfo.external_attr (st_mode << 16 | DOS bits) and create_system (0 = DOS, 3 = unix, 19 = OS X)
+#   TAR : typeflag (regular, old-style regular, contiguous, links, devices, fifo, directory) and the mode field
+def _ux(mode):
+    return 0x8000 | (mode << 16)
+
+
+ATTR_7Z = [_ux(0o120777), _ux(0o120777) | 0x20, _ux(0o120644) | 0x400, _ux(0o010644), _ux(0o020666), _ux(0o060660), _ux(0o140755),
+           _ux(0o100644) | 0x20, _ux(0o104755) | 0x20, _ux(0o103777), _ux(0o040755), _ux(0o040755) | 0x10, 0o120777 << 16,
+           0x400 | 0x20, 0x400 | 0x10, 0x40, 0x7, 0x100 | 0x1000 | 0x20, 0xFFFFFFFF, 0, 0x8000, "undef"]
+ATTR_ZIP = [(0o120777 << 16, 3), (0o120777 << 16, 0), ((0o120777 << 16) | 0x20, 19), (0o010644 << 16, 3), (0o020666 << 16, 3),
+            (0o060660 << 16, 3), (0o140755 << 16, 3), (0o104755 << 16, 3), ((0o040755 << 16) | 0x10, 3), (0x10, 0), (0x400, 0),
+            (0x400 | 0x10, 0), (0x40, 0), (0xFFFFFFFF, 3), (0, 0), (0o100644 << 16, 3)]
+ATTR_TAR = [0o4755, 0o2755, 0o1777, 0o7777, 0o120777, 0o020666, 0o060660, 0o010644, 0o040755, 0o644, 0]
+# link targets / path-valued data: host files and directories, escaping relative paths, members of the archive itself
+PATH_DATA = ["{SB}/secret.txt", "{SB}/x.txt", "{SB}/deep", "{SB}/cwd", "{SB}/deep/a/b.txt", "../../secret.txt", "../../deep",
+             "../..", "/etc/hostname", ".", "{SB}/notes.md"]
+LINK_7Z, LINK_ZIP = _ux(0o120777), (0o120777 << 16, 3)
+
+
+class _RawModeTarInfo(tarfile.TarInfo):
+    """tarfile writes `mode & 0o7777`; a hostile (or old) archiver puts the whole st_mode — file-type bits included — into
+    the mode field.  The field of the member's own header block is rewritten and the checksum recomputed."""
+    raw_mode = None
+
+    def tobuf(self, *a, **k):
+        buf = super().tobuf(*a, **k)
+        if self.raw_mode is None or len(buf) < 512:
+            return buf
+        hdr = bytearray(buf[-512:])
+        hdr[100:108] = b"%07o\0" % self.raw_mode
+        hdr[148:156] = b" " * 8
+        hdr[148:156] = b"%06o\0 " % sum(hdr)
+        return buf[:-512] + bytes(hdr)
+
+
+def _zip_attr(zi, m):
+    a = m.get("attr")
+    if isinstance(a, (list, tuple)) and len(a) == 2:
+        zi.external_attr, zi.create_system = int(a[0]) & 0xFFFFFFFF, int(a[1]) & 0xFF
 
 
 def build_archive(spec, sb: Sandbox) -> bytes:
@@ -324,21 +405,28 @@ def build_archive(spec, sb: Sandbox) -> bytes:
                     zf.writestr(zi, b"")
                 elif m["kind"] == "symlink":
                     zi.external_attr = (statmod.S_IFLNK | 0o777) << 16
+                    _zip_attr(zi, m)
                     zf.writestr(zi, _subst(m.get("link", ""), sb).encode("utf-8", "surrogateescape"))
                 else:
                     zi.external_attr = 0o100644 << 16
-                    zf.writestr(zi, _b(m))
+                    _zip_attr(zi, m)
+                    zf.writestr(zi, _b(m, sb))
         blob = bio.getvalue()
     elif fmt.startswith("tar"):
         bio = io.BytesIO()
         mode = {"tar": "w:", "tar.gz": "w:gz", "tar.bz2": "w:bz2", "tar.xz": "w:xz"}[fmt]
         with tarfile.open(fileobj=bio, mode=mode, format=tarfile.PAX_FORMAT) as tf:
             for m in ms:
-                ti = tarfile.TarInfo(_subst(m["name"], sb))
+                ti = _RawModeTarInfo(_subst(m["name"], sb))
                 k = m["kind"]
+                if isinstance(m.get("attr"), int):
+                    ti.mode = m["attr"] & 0o7777
+                    ti.raw_mode = m["attr"] & 0o7777777
                 if k == "file":
-                    d = _b(m)
+                    d = _b(m, sb)
                     ti.size = len(d)
+                    # "ttype": the other typeflags tarfile counts as regular (contiguous file, old-style '\0')
+                    ti.type = {"cont": tarfile.CONTTYPE, "areg": tarfile.AREGTYPE}.get(m.get("ttype"), tarfile.REGTYPE)
                     tf.addfile(ti, io.BytesIO(d))
                     continue
                 ti.type = {"dir": tarfile.DIRTYPE, "symlink": tarfile.SYMTYPE, "hardlink": tarfile.LNKTYPE, "chr": tarfile.CHRTYPE,
@@ -349,7 +437,7 @@ def build_archive(spec, sb: Sandbox) -> bytes:
                 tf.addfile(ti)
         blob = bio.getvalue()
     elif fmt == "7z":
-        ents = [{"name": _subst(m["name"], sb), "kind": m["kind"], "data": _b(m)} for m in ms]
+        ents = [{"name": _subst(m["name"], sb), "kind": m["kind"], "data": _b(m, sb), "attr": m.get("attr")} for m in ms]
         c = spec.get("corrupt")
         return szb.build(ents, layout=spec.get("layout", "solid"), corrupt=c if c in ("header-crc", "truncate", "short-stream") else None)
     else:
@@ -495,6 +583,8 @@ def gen_spec(rng, fmt=None, small=True):
         members.append(m)
     if rng.random() < 0.3:
         members = _inject_bypass(rng, fmt, members, SMALL_MAX if small else 10 * 1024 * 1024)
+    if rng.random() < 0.4:
+        members = _vary_attrs(rng, fmt, members)
     if fmt == "7z":
         # streams are matched by position: keep stream-bearing entries before the orphans (see the builder's docstring)
         members.sort(key=lambda m: 1 if m["kind"] == "orphan" else 0)
@@ -509,6 +599,115 @@ def gen_spec(rng, fmt=None, small=True):
     return spec
 
 
+# ---------------------------------------------------------------------------- attribute family
+def _attr_pool(fmt):
+    base = fmt.split(".")[0]
+    return ATTR_7Z if base == "7z" else [list(a) for a in ATTR_ZIP] if base == "zip" else ATTR_TAR
+
+
+def _vary_attrs(rng, fmt, members):
+    """give the members of a random archive attribute words drawn independently of their names, kinds and data; let some
+    data-bearing members hold a PATH as data (what a link entry stores) and put a member BELOW such an entry"""
+    pool = _attr_pool(fmt)
+    link = LINK_7Z if fmt == "7z" else list(LINK_ZIP) if fmt == "zip" else 0o120777
+    out = []
+    for m in members:
+        m = dict(m)
+        if rng.random() < 0.75:
+            m["attr"] = rng.choice(pool)
+        if fmt.startswith("tar") and m["kind"] == "file" and rng.random() < 0.3:
+            m["ttype"] = rng.choice(["cont", "areg"])
+        out.append(m)
+        if m["kind"] == "file" and "NESTED" not in m.get("data", "") and m["data"].isascii() and rng.random() < 0.35:
+            m["data"], m["subst"] = rng.choice(PATH_DATA + [members[0]["name"]]), True
+            if rng.random() < 0.6:
+                m["attr"] = link
+            if rng.random() < 0.5 and m["name"] and not m["name"].endswith("/"):
+                out.append({"name": m["name"] + "/" + rng.choice(["drop.txt", "x.txt", "d/drop.md"]), "kind": "file",
+                            "data": _payload(f"below{rng.randint(0, 10**6)}", 22)})
+    return out
+
+
+def _attr_class(fmt, a):
+    if a == "undef":
+        return "undefined"
+    if fmt.startswith("tar"):
+        return "mode-with-type-bits" if a & 0o170000 else ("setuid/setgid/sticky" if a & 0o7000 else "plain-mode")
+    mode = (a[0] >> 16) if isinstance(a, (list, tuple)) else ((a >> 16) if a & 0x8000 else 0)
+    win = (a[0] if isinstance(a, (list, tuple)) else a) & 0xFFFF
+    t = {0o120000: "symlink", 0o010000: "fifo", 0o020000: "chr", 0o060000: "blk", 0o140000: "socket", 0o040000: "unix-dir",
+         0o100000: "unix-reg"}.get(mode & 0o170000, "no-unix-mode" if not mode else "other-mode")
+    if mode & 0o7000:
+        t += "+suid/sgid/sticky"
+    if win & 0x400:
+        t += "+reparse"
+    if win & 0x40:
+        t += "+device"
+    if win & 0x10:
+        t += "+dirbit"
+    return t
+
+
+def attr_battery(lim=None):
+    """the fixed attribute battery, deterministic: every container x every attribute word of its pool on (1) a member of
+    supported type whose data is the path of a host FILE (a link entry as p7zip / zip -y store it), (2) such a member
+    whose data is the path of a host DIRECTORY followed by a member named below it, (3) an ordinary member with a
+    payload of its own, (4) entries without data (7z: empty file / directory / stream-less) — next to an ordinary
+    member that must come out unchanged"""
+    out = []
+    lim = lim or SMALL_MAX
+    tag = 0
+    for fmt in ("7z", "zip", "tar", "tar.gz"):
+        pool = _attr_pool(fmt)
+        layouts = ("solid", "perfile") if fmt == "7z" else (None,)
+        for ai, attr in enumerate(pool):
+            if fmt == "tar.gz" and ai % 4:
+                continue      # the compressed wrapper shares the member loop
+            layout = layouts[ai % len(layouts)]
+            V = lambda: {"name": "report.txt", "kind": "file", "data": _payload(f"V{tag}", 24)}   # noqa: E731
+            shapes = [
+                [{"name": "notes.txt", "kind": "file", "data": "{SB}/secret.txt", "subst": True, "attr": attr}, V()],
+                [V(), {"name": "inbox.txt", "kind": "file", "data": "{SB}/deep", "subst": True, "attr": attr},
+                 {"name": "inbox.txt/drop.txt", "kind": "file", "data": _payload(f"D{tag}", 22)}],
+                [{"name": "d/plain.md", "kind": "file", "data": _payload(f"P{tag}", 26), "attr": attr}, V(),
+                 {"name": "d/up.txt", "kind": "file", "data": "../../../secret.txt", "subst": True, "attr": attr}],
+            ]
+            if fmt == "7z":
+                shapes.append([V(), {"name": "e.txt", "kind": "empty", "data": "", "attr": attr}, {"name": "sub", "kind": "dir", "data": "", "attr": attr},
+                               {"name": "sub/in.txt", "kind": "file", "data": _payload(f"S{tag}", 20)},
+                               {"name": "{SB}/secret.txt", "kind": "orphan", "data": "", "attr": attr}])
+                shapes.append([{"name": "ad.txt", "kind": "attrdir", "data": "", "attr": attr}, V(),
+                               {"name": "ad.txt/in.txt", "kind": "file", "data": _payload(f"A{tag}", 20), "attr": "undef"}])
+            elif fmt == "zip":
+                shapes.append([V(), {"name": "l.txt", "kind": "symlink", "link": "{SB}/secret.txt", "data": "", "attr": attr},
+                               {"name": "dir.txt/", "kind": "dir", "data": ""}])
+            else:
+                shapes.append([V(), {"name": "c.txt", "kind": "file", "ttype": "cont", "data": _payload(f"C{tag}", 21), "attr": attr},
+                               {"name": "o.txt", "kind": "file", "ttype": "areg", "data": _payload(f"O{tag}", 21), "attr": attr},
+                               {"name": "inbox.txt", "kind": "symlink", "link": "{SB}/deep", "data": "", "attr": attr},
+                               {"name": "inbox.txt/drop.txt", "kind": "file", "data": _payload(f"T{tag}", 22)}])
+            if attr in (LINK_7Z, list(LINK_ZIP), 0o120777) and fmt != "tar.gz":
+                # link CHAIN: each target stays lexically inside the archive's own tree (d1/d2/up.txt -> ../.. is the root of
+                # the tree; d1/d2/up.txt/../../secret.txt reads as d1/secret.txt), physically the second one leaves it
+                def lk(name, target):
+                    if fmt.startswith("tar"):
+                        return {"name": name, "kind": "symlink", "link": target, "data": "", "attr": attr}
+                    return {"name": name, "kind": "file", "data": target, "subst": True, "attr": attr}
+                shapes.append([V(), lk("d1/d2/up.txt", "../.."), lk("notes.txt", "d1/d2/up.txt/../../secret.txt"),
+                               {"name": "d1/d2/up.txt/../../x.txt", "kind": "file", "data": _payload(f"X{tag}", 23)}])
+                shapes.append([lk("in.txt", "d1"), {"name": "d1/a.txt", "kind": "file", "data": _payload(f"I{tag}", 23)},
+                               lk("out.md", "in.txt/../../../deep/a/b.txt"), V()])
+            for ms in shapes:
+                tag += 1
+                if fmt == "7z":
+                    ms = sorted(ms, key=lambda m: 1 if m["kind"] == "orphan" else 0)
+                spec = {"fmt": fmt, "members": ms, "consumer": ["exhaust"], "max_memory": lim}
+                if layout:
+                    spec["layout"] = layout
+                out.append(spec)
+    return out
+
+
 # ---------------------------------------------------------------------------- filter by-pass family
 # A member F that must NOT produce results (hidden, resource fork, unsupported type, nested archive, oversize) with a
 # payload that occurs nowhere else in the archive, next to a member A with an innocent name that REFERS to F by one of
@@ -518,7 +717,7 @@ def gen_spec(rng, fmt=None, small=True):
 F_CLASSES = ["hidden", "hidden-sub", "macosx", "unsupported", "nested", "oversize"]
 MECHS = {"tar": ["hardlink", "hardlink-dotslash", "hardlink-chain", "symlink", "symlink-sub", "dup-small", "same-basename", "copresent"],
          "zip": ["symlink", "dup-small", "same-basename", "copresent"],
-         "7z": ["dup-small", "path-alias", "empty-same-name", "orphan-same-name", "same-basename", "copresent"]}
+         "7z": ["dup-small", "path-alias", "empty-same-name", "orphan-same-name", "same-basename", "copresent", "link-attr"]}
 
 
 def _payload(tag, ln):
@@ -551,7 +750,10 @@ def bypass_members(fmt, cls, mech, tag, lim, f_first=True, stem="cred"):
         if kind == "symlink" and not f_first:
             return [V, A, F]
         return [V, F, A] + extra
-    if mech == "dup-small":
+    if mech == "link-attr":
+        # an entry of innocent name flagged as a symbolic link (p7zip unix extension) whose data is the forbidden member's name
+        A = {"name": "notes.txt", "kind": "file", "data": F["name"], "subst": True, "attr": LINK_7Z}
+    elif mech == "dup-small":
         if cls != "oversize":
             return None
         A = {**small, "name": F["name"]}
@@ -803,7 +1005,7 @@ def model_request(spec, sb: Sandbox, blob: bytes, base: str | None):
     # 7z: from the writer's description
     if spec.get("corrupt"):
         return None
-    ents = [{"name": _subst(m["name"], sb), "kind": m["kind"], "data": _b(m)} for m in spec["members"]]
+    ents = [{"name": _subst(m["name"], sb), "kind": m["kind"], "data": _b(m, sb), "attr": m.get("attr")} for m in spec["members"]]
     files = [e for e in ents if e["kind"] == "file"]
     if any(len(e["data"]) == 0 for e in files):
         return None  # a zero-length stream is outside what the writer encodes faithfully
@@ -818,11 +1020,13 @@ def model_request(spec, sb: Sandbox, blob: bytes, base: str | None):
     else:
         return None
     entries = [{"name": e["name"], "empty": e["kind"] in ("dir", "empty"), "attrdir": e["kind"] == "attrdir"} for e in ents]
-    if any(e["kind"] == "attrdir" for e in ents):
-        # attribute words are written for every entry: dir entries get 0x10 too
-        for e, x in zip(ents, entries):
-            if e["kind"] == "dir":
-                x["attrdir"] = True
+    words = szb.attr_words(ents)
+    if words is not None:
+        # the attribute word the writer put into the header for each entry (0 where none is defined): the model is handed the
+        # WHOLE word and keeps of it what `_build_file_list` keeps (S2T.Archive.AttrEntry.toRaw: FILE_ATTRIBUTE_DIRECTORY)
+        for w, x in zip(words, entries):
+            x["attr"] = w or 0
+            x["attrdir"] = bool((w or 0) & 0x10)
     lowers, mimes = _lowers_mimes([e["name"] for e in ents])
     # PROP_EMPTY_FILE: one flag per empty-stream entry; the writer only emits the property when a flag is set
     efs = [e["kind"] == "empty" for e in ents if e["kind"] in ("dir", "empty")]
@@ -863,6 +1067,15 @@ def _fs_events(events, ro):
     return [e for e in events if not (e[0] in ("openR", "stat", "listdir") and isinstance(e[1], str) and is_ro(e[1]))]
 
 
+def _phys(e, sb):
+    """the event as the Lean acceptor is to judge it: where a path below the temp root is taken ELSEWHERE by the kernel
+    (a link inside a private directory), the acceptor is handed the place the kernel goes to"""
+    if e[0] in ("openR", "openW", "mkdir") and len(e) > 2 and isinstance(e[2], str) and isinstance(e[1], str) \
+            and os.path.isabs(e[1]) and os.path.normpath(e[1]).startswith(sb.tmp + "/") and os.path.normpath(e[1]) != e[2]:
+        return [e[0], e[2]]
+    return e[:3] if e[0] == "rmtree" else e[:2]
+
+
 def compare_case(ctx, spec, sb, real, model, ro):
     """-> list of disagreement strings between the real run and the model's answer."""
     diffs = []
@@ -877,8 +1090,12 @@ def compare_case(ctx, spec, sb, real, model, ro):
 
     # the plain-text extractor guesses an encoding (charset_normalizer): only the generator's own ASCII payloads
     # decode predictably; for other bytes (link targets, gzip data under a text name) the text is not compared
+    def _pathlike(rt):
+        # a path stored as a member's data (link entries): ASCII, printable, decodes as itself
+        return rt.isascii() and rt.isprintable() and rt.startswith(("/", "../")) and " " not in rt
+
     def _cmp(pairs, ref):
-        return [(p, t if ("payload" in rt and rt.isascii() and len(rt) >= 12) else "<text not compared>")
+        return [(p, t if ((("payload" in rt) or _pathlike(rt)) and rt.isascii() and len(rt) >= 12) else "<text not compared>")
                 for (p, t), (_, rt) in zip(pairs, ref)] + [(p, t) for p, t in pairs[len(ref):]]
     real_res = _cmp(real_res, mres)
     mres = _cmp(mres, mres)
@@ -951,6 +1168,12 @@ def _py_confined(events, sb: Sandbox, ro):
         if not isinstance(p, str):
             bad.append(f"{e!r}: unrecognised path")
             continue
+        if k in ("openR", "openW", "mkdir") and len(e) > 2 and isinstance(e[2], str) and any(inside(p, d) for d in live) \
+                and not any(inside(e[2], d) for d in live):
+            # lexically inside the private directory, but the kernel takes the path elsewhere: something in the private
+            # directory is a link (member names / link entries must not redirect I/O)
+            bad.append(f"{k} {p} is taken by the kernel to {e[2]}, outside the private directory (a link inside it is followed)")
+            continue
         if k == "mkdtemp":
             if os.path.dirname(p) != sb.tmp:
                 bad.append(f"mkdtemp outside the temp root: {p}")
@@ -988,7 +1211,7 @@ def _member_class(name: str):
     return hidden, nested, bool(sharepoint2text.is_supported_file(bn))
 
 
-def _member_reason(m, name, lim):
+def _member_reason(m, name, lim, sb=None):
     """why this member must not produce results (None: it may) — judged from the archive description alone"""
     hidden, nested, sup = _member_class(name)
     if hidden:
@@ -997,8 +1220,8 @@ def _member_reason(m, name, lim):
         return "nested-archive"
     if not sup:
         return "unsupported-type"
-    if len(_b(m)) > lim:
-        return f"oversize ({len(_b(m))} bytes, limit {lim})"
+    if len(_b(m, sb)) > lim:
+        return f"oversize ({len(_b(m, sb))} bytes, limit {lim})"
     return None
 
 
@@ -1036,13 +1259,13 @@ def content_leaks(spec, sb: Sandbox, results, names=None):
     lim = spec.get("max_memory") or 10 * 1024 * 1024
     ms = spec["members"]
     names = names or [_subst(m["name"], sb) for m in ms]
-    reasons = [(m, _member_reason(m, nm, lim)) for m, nm in zip(ms, names) if m["kind"] == "file" and _b(m)]
-    allowed_text = [m["data"] for m, why in reasons if why is None]
+    reasons = [(m, _member_reason(m, nm, lim, sb)) for m, nm in zip(ms, names) if m["kind"] == "file" and _b(m, sb)]
+    allowed_text = [m["data"] for m, why in reasons if why is None] + [_subst(m["data"], sb) for m, why in reasons if m.get("subst")]
     allowed_text += [_subst(m.get("link", ""), sb) for m in ms if m["kind"] != "file"] + [_subst(m["name"], sb) for m in ms] + list(names)
     out = []
     seen = set()
     for m, why in reasons:
-        tok = _token(m["data"]) if why else None
+        tok = _token(m["data"]) if why and not m.get("subst") else None
         if tok is None or tok in seen or any(tok in a for a in allowed_text):
             continue
         seen.add(tok)
@@ -1098,7 +1321,7 @@ def oracle(ctx, spec, sb: Sandbox, ro):
     sizes = {}
     for m in spec["members"]:
         key = str(pathlib.PurePosixPath(apath + "!/" + _subst(m["name"], sb)))[len(apath) + 2:]
-        plen = len(_subst(m.get("link", ""), sb).encode("utf-8", "surrogateescape")) if (spec["fmt"] == "zip" and m["kind"] == "symlink") else len(_b(m))
+        plen = len(_subst(m.get("link", ""), sb).encode("utf-8", "surrogateescape")) if (spec["fmt"] == "zip" and m["kind"] == "symlink") else len(_b(m, sb))
         sizes.setdefault(key, []).append(plen)
     for r in ra["results"]:
         p = r["path"] or ""
@@ -1305,7 +1528,7 @@ def correspondence(ctx):
                                          f"(hidden={o.get('hidden')}, routes-to-archive={o.get('to_archive')})", case={"name": nm}))
         # ---- 3. whole archives: results, outcome, file-system effects, acceptor
         _calibrate(ctx, sb, broken)
-        specs = list(CORPUS) + bypass_battery()
+        specs = list(CORPUS) + bypass_battery() + attr_battery()
         for _ in range(ctx.n(260, 6000)):
             specs.append(gen_spec(ctx.rng))
         # a few members around the real (default) limits
@@ -1341,12 +1564,15 @@ def correspondence(ctx):
             # the filters judged by content on every run of the real code (not only when something broke)
             for key, what in content_leaks(spec, sb, real["results"], None if big_case else reported_names(spec, sb, blob)):
                 violations.append(Violation(key, what, {"spec": spec} if not big_case else {"bigspec": _big_descr(spec)}))
-            evs = [e for e in real["events"]]
+            evs = [_phys(e, sb) for e in real["events"]]
             conf_reqs.append({"op": "c09.confined", "tmp_root": sb.tmp, "ro": ro, "events": evs})
             kinds = sorted({m["kind"] for m in spec["members"]})
             ctx.count(f"archive/{spec['fmt']}/{spec.get('layout', '-')}/{spec['consumer'][0]}/{_norm_outcome(real['outcome']).split(':')[0]}")
             for k in kinds:
                 ctx.count("member-kind/" + k)
+            for m in spec["members"]:
+                if m.get("attr") is not None:
+                    ctx.count(f"attr/{spec['fmt'].split('.')[0]}/{_attr_class(spec['fmt'], m['attr'])}" + ("/path-data" if m.get("subst") else ""))
             if big_case:
                 # default limits: the boundary members themselves are checked here (the model run is skipped for size)
                 got = sorted(r["path"].split("!/")[-1] for r in real["results"])
@@ -1558,7 +1784,7 @@ def search(ctx, broken):
                 specs.append(_big_expand(b.case["bigspec"]))
             except Exception:
                 pass
-    specs += bypass_battery() + [w for _, w in WITNESSES] + CORPUS
+    specs += attr_battery() + bypass_battery() + [w for _, w in WITNESSES] + CORPUS
     for _ in range(ctx.n(150, 1500)):
         specs.append(gen_spec(ctx.rng))
     vs = _oracle_specs(ctx, specs, limit_s=ctx.n(50, 500))
